@@ -213,10 +213,15 @@ def gen_quads_trace(recipe, rng):
   return {'est': name, 'via_index': via_index, 'events': [model_with_thr(est), ev]}
 
 
+SUITE_KINDS = ('CallPredictPairs', 'CallTuples')
+SUITE_FILES = ['test/test_pairs_classifiers.py', 'test/test_triplets_classifiers.py', 'test/test_quadruplets_classifiers.py',
+               'test/test_sklearn_compat.py']
+
+
 def gen_trace(recipe):
   if recipe.get('suite'):
     import suite
-    return suite.regen(recipe, ('CallPredictPairs',))
+    return suite.regen(recipe, SUITE_KINDS)
   rng = np.random.default_rng(recipe['seed'])
   if recipe['est'] == 'SCML':
     return gen_triplets_trace(recipe, rng)
@@ -274,10 +279,10 @@ def run(ctx):
   core.judge(ctx, *SPEC, pairs, signature_of)
   # predict calls made by the repository's own pairs-classifier tests, validated against the same rule
   import suite
-  evs, summary = core.record_suite_calls(os.path.join(ctx.work, 'suite'), files=['test/test_pairs_classifiers.py'])
-  spairs = suite.traces_from(evs, ('CallPredictPairs',), 120 if ctx.quick else 0, np.random.default_rng(ctx.seed))
+  evs, summary = core.record_suite_calls(os.path.join(ctx.work, 'suite'), files=SUITE_FILES[:3] if ctx.quick else SUITE_FILES)
+  spairs = suite.traces_from(evs, SUITE_KINDS, 120 if ctx.quick else 0, np.random.default_rng(ctx.seed))
   if len(spairs) < 20:
-    raise core.MachineryError('only %d predict traces recorded from test_pairs_classifiers.py (%s)' % (len(spairs), summary))
+    raise core.MachineryError('only %d predict traces recorded from the tuple-classifier tests (%s)' % (len(spairs), summary))
   core.judge(ctx, *SPEC, spairs, signature_of, tag='suite')
   for recipe, tr in spairs:
     ctx.note_case(('suite', recipe['test']))
@@ -285,7 +290,8 @@ def run(ctx):
                                'events_validated': sum(len(t['events']) for _, t in spairs)}
   def flip_suite(t):
     t['events'][0]['out'] = [-v for v in t['events'][0]['out']]
-  core.selftest_binding(ctx, *SPEC, spairs[0][1], flip_suite, 'C04.suite_call_predict', 'suite_predictions_flipped')
+  sp = next(t for r, t in spairs if t['events'][0]['ev'] == 'CallPredictPairs')
+  core.selftest_binding(ctx, *SPEC, sp, flip_suite, 'C04.suite_call_predict', 'suite_predictions_flipped')
   ties = 0
   for recipe, tr in pairs:
     has_tie = False
